@@ -19,10 +19,26 @@ type plainIface struct {
 	name, desc string
 	// resolver role: reply to GetInfo / Resolve with these JSON texts
 	infoJSON string
+	// run once, concurrently, while RegisterInterface fetches the description
+	during func()
 }
 
-func (p *plainIface) VarlinkGetName() string        { return p.name }
-func (p *plainIface) VarlinkGetDescription() string { return p.desc }
+func (p *plainIface) VarlinkGetName() string { return p.name }
+func (p *plainIface) VarlinkGetDescription() string {
+	if p.during != nil {
+		// RegisterInterface is asking for the description: let a competing operation run right now, and give it a
+		// moment — with the registration being one critical section it can only get in afterwards
+		f := p.during
+		p.during = nil
+		done := make(chan struct{})
+		go func() { f(); close(done) }()
+		select {
+		case <-done:
+		case <-time.After(30 * time.Millisecond):
+		}
+	}
+	return p.desc
+}
 func (p *plainIface) VarlinkDispatch(ctx context.Context, c varlink.Call, method string) error {
 	switch method {
 	case "GetInfo":
@@ -185,11 +201,37 @@ func init() {
 					if g.Chance(1, 6) {
 						desc = g.randStringValid()
 					}
-					res := classifyRegErr(svc.RegisterInterface(&plainIface{name: name, desc: desc}))
+					pi := &plainIface{name: name, desc: desc}
+					var inner chan string
+					desc2 := desc + "# competing registration\n"
+					if g.Chance(1, 4) {
+						// a second registration of the same name starts while the first one is in progress: exactly one
+						// of them may be accepted (in the model: two registrations one after the other)
+						inner = make(chan string, 1)
+						pi.during = func() {
+							inner <- classifyRegErr(svc.RegisterInterface(&plainIface{name: name, desc: desc2}))
+						}
+					}
+					res := classifyRegErr(svc.RegisterInterface(pi))
 					if res == "ok" {
 						accepted = append(accepted, name)
 					}
 					ops = append(ops, opRec{"register", name, desc, res})
+					if inner != nil && pi.during != nil {
+						// refused before the description was asked for: the competing registration never started
+						inner = nil
+					}
+					if inner != nil {
+						select {
+						case r2 := <-inner:
+							if r2 == "ok" {
+								accepted = append(accepted, name)
+							}
+							ops = append(ops, opRec{"register", name, desc2, r2})
+						case <-time.After(5 * time.Second):
+							ops = append(ops, opRec{"register", name, desc2, "hang"})
+						}
+					}
 				case c == 5 && r.running: // query in the middle of the history (over a fresh connection)
 					conn, err := varlink.NewConnection(ctx, r.addr)
 					if err != nil {
